@@ -214,8 +214,9 @@ def _execute(ctx):
                 o, h, l, c = [max(q(D(x) / 100, qpp(pi)), uqp(pi)) for x in (r["o"], r["h"], r["l"], r["c"])]
                 h = max(o, h, l, c)
                 l = min(o, h, l, c)
-                b = bar.Bar(tmin(r["k"] + 1 - span), pairs[pi], o, h, l, c, D(r["v"]))
-                ev = bar.BarEvent(tmin(r["k"] + 1), b)
+                off = datetime.timedelta(microseconds=(250000 * (pi + 2)) % 1000000) if scn.get("subsec") else datetime.timedelta(0)
+                b = bar.Bar(tmin(r["k"] + 1 - span) + off, pairs[pi], o, h, l, c, D(r["v"]))
+                ev = bar.BarEvent(tmin(r["k"] + 1) + off, b)
                 ev._pi = pi
                 ev._bi = bi
                 evs.append(ev)
@@ -625,6 +626,10 @@ def _execute(ctx):
                 if await margin_rule_explains_skip(lid, order, sym):
                     shape = "margin-veto-of-affordable-repayment"
                     why = "; at its turn the margin rule, counting the loan's own interest as still outstanding, vetoes the repayment"
+                    break
+                if got - expect:
+                    # the funds went to a loan with a smaller principal instead: no need to ask the exchange
+                    why = "; a loan with a smaller principal was repaid instead"
                     break
                 try:
                     await e.repay_loan(lid)
@@ -1217,6 +1222,9 @@ def _execute(ctx):
                             shape = "margin-veto-of-affordable-repayment"
                             why = "; at its turn the margin rule, counting the loan's own interest as still outstanding, vetoes the repayment"
                             break
+                        if got - expect:
+                            why = "; a loan with a smaller principal was repaid instead"
+                            break
                         try:
                             await e.repay_loan(lid)
                             M["loans"].get(lid, {})["explained"] = True
@@ -1383,6 +1391,21 @@ def _execute(ctx):
                         await do_loan(op)
                     elif k == "repay":
                         await do_repay(op)
+                    elif k == "recond":
+                        # MarginLoans.set_conditions may be called at any time: the requirement for a symbol is raised;
+                        # from then on it applies to everything borrowed in that symbol (interest terms stay as they are)
+                        sym_ = symbols[op["sym"] % len(symbols)]
+                        c_old = cond_of(sym_) if lend else None
+                        if c_old is not None:
+                            c_new = lending.MarginLoanConditions(
+                                interest_symbol=c_old.interest_symbol, interest_percentage=c_old.interest_percentage,
+                                interest_period=c_old.interest_period, min_interest=c_old.min_interest,
+                                margin_requirement=c_old.margin_requirement + D(op["add"]))
+                            ls.set_conditions(sym_, c_new)
+                            conds[sym_] = c_new
+                            M["dirty"] = True
+                            ctx.probes["margin_requirement_raised"] += 1
+                            ctx.trace.append((f"set_conditions({sym_},{c_new.margin_requirement})", "ok"))
                     elif k == "reprec":
                         # set_symbol_precision may be called at any time; here a precision only ever gets finer
                         sym_ = symbols[op["sym"] % len(symbols)]
@@ -1766,6 +1789,8 @@ def simplifications(scn):
         yield mod(lambda c: c.__setitem__("slow", None))
     if scn.get("flaky_fee"):
         yield mod(lambda c: c.__setitem__("flaky_fee", 0))
+    if scn.get("subsec"):
+        yield mod(lambda c: c.__setitem__("subsec", False))
     if scn["lend"] and scn["lend"].get("refuse_after") is not None:
         yield mod(lambda c: c["lend"].__setitem__("refuse_after", None))
     if scn["lend"]:
